@@ -4,7 +4,7 @@ from harness.lib.framework import Prop, coq_list, coq_N, coq_opt, coq_str
 PORTS = ["p", "q", "r"]
 DEPS = ["d0", "d1", "d2", "d3"]
 SRVS = [None, "a", "b"]
-VALS = ["x", "y", "1", "True", "None", "", "a b", "é", 1, 2, True, False, None]
+VALS = ["x", "y", "xy", "1", "10", "True", "Tr", "None", "", "a b", "é", 1, 2, 10, True, False, None]
 ERRS = {"ValueError": "EMissingInput", "WorkflowDefinitionException": "EUnsupported",
         "WorkflowExecutionException": "ENoTargets"}
 KINDS = {"plain": "KPlain", "file": "KFile", "list": "KList", "object": "KObject"}
@@ -52,7 +52,8 @@ class C13(Prop):
     LEVEL_TEXT = ("Theorems (Coq, closed under the global context), for unbounded numbers of targets, rules, predicates, "
                   "filters and scheduling passes: MatchingBindingFilter.get_targets returns exactly the targets kept by "
                   "the property's wording, in declared order, or raises; it is total on well-formed predicates; a filter "
-                  "chain keeps the survivors of all filters in declared order; the scheduler's attempt loop (one FIFO-queued "
+                  "chain keeps the survivors of all filters in declared order; filter objects are stateless across jobs (a "
+                  "sequence of jobs through the same objects = each job through the stateless chain); the scheduler's attempt loop (one FIFO-queued "
                   "task per target, re-evaluated on every notify_all) allocates, in the first pass where any target can "
                   "host, the first such target of the list; end to end for schedule(). The pre-fix set()-based code is "
                   "proved to keep only the elements (refuted for order). Tied to /repo by running the real filter chain "
@@ -67,7 +68,7 @@ class C13(Prop):
     RULE = ("1..4 declared targets over deployments d0..d3 and services None/a/b (duplicates allowed), chains of 0..3 matching "
             "filters with 1..3 rules of 0..3 predicates (biased to match so that several targets survive; duplicate ports, "
             "missing and file/list/object inputs mixed in), job inputs str/int/bool/None; sched cases add an initial set of "
-            "busy locations released one at a time. Non-trivial = the text determines the survivors and at least two "
+            "busy locations released one at a time; fseq/sseq cases send 2..4 jobs with varied inputs (and, for fseq, varied sub-lists of the targets) through the SAME filter objects / scheduler, each job judged on its own. Non-trivial = the text determines the survivors and at least two "
             "targets survive, or a filter leaves nothing. Distinct = distinct canonical JSON.")
     TRUSTED = ("model: Filter/Model.v (MatchingRule.eval, MatchingBindingFilter.__init__/get_targets, the filter loop of "
                "DefaultScheduler.schedule, the FIFO attempt loop of schedule/_process_target) is hand-written",
@@ -98,7 +99,13 @@ class C13(Prop):
                 job = []
                 for _ in range(rng.choice([0, 1, 1, 2, 2, 3])):
                     p = rng.choice(PORTS)
-                    m = pl[p] if p in pl and rng.random() < 0.85 else str(rng.choice(VALS))
+                    if p in pl and rng.random() < 0.8:
+                        m = pl[p]
+                    elif p in pl and len(pl[p]) >= 2 and rng.random() < 0.6:
+                        # a proper substring of the value: equal under "in", different under "=="
+                        m = rng.choice([pl[p][:-1], pl[p][1:], pl[p][:1]])
+                    else:
+                        m = str(rng.choice(VALS))
                     job.append([p, m])
                 rules.append({"d": t[0], "s": s, "form": rng.choice(["str", "dict"]), "job": job})
             if rng.random() < 0.6:  # a rule per deployment: several targets survive
@@ -124,10 +131,50 @@ class C13(Prop):
             c["busy"] = rounds
         return c
 
+    def _vary(self, rng, inputs):
+        out = []
+        for p, k, v in inputs:
+            r = rng.random()
+            if r < 0.35:
+                v = rng.choice(VALS)
+            elif r < 0.38:
+                continue
+            out.append([p, k, v])
+        return out
+
+    def _seq_case(self, rng, kind):
+        """several jobs through the same filter objects (one scheduler): the filters must not remember anything"""
+        while True:
+            base = self._case(rng, "filter")
+            if base["filters"]:
+                break
+        nt = len(base["targets"])
+        jobs = [base["inputs"]] + [self._vary(rng, base["inputs"]) for _ in range(rng.choice([1, 2, 2, 3]))]
+        rng.shuffle(jobs)
+        c = {"f": kind, "targets": base["targets"], "filters": base["filters"]}
+        if kind == "fseq":
+            calls = []
+            for inp in jobs:
+                if rng.random() < 0.6:
+                    sel = list(range(nt))
+                else:
+                    sel = [i for i in range(nt) if rng.random() < 0.5] or [rng.randrange(nt)]
+                    if rng.random() < 0.2:
+                        rng.shuffle(sel)
+                calls.append({"step": rng.choice(["/s", "/s", "/wf/t"]), "inputs": inp, "sel": sel})
+            c["calls"] = calls
+        else:
+            locs = sorted(set((t[0], t[1] or "") for t in base["targets"]))
+            c["busy0"] = [[d, s or None] for d, s in locs if rng.random() < 0.25]
+            c["jobs"] = jobs
+        return c
+
     def gen(self, rng, tier):
-        n = {"quick": 500, "thorough": 5000, "extended": 4000}[tier]
+        n = {"quick": 300, "thorough": 3000, "extended": 2500}[tier]
         cases = [self._case(rng, "filter") for _ in range(n)]
         cases += [self._case(rng, "sched") for _ in range(n // 2)]
+        cases += [self._seq_case(rng, "fseq") for _ in range(n)]
+        cases += [self._seq_case(rng, "sseq") for _ in range(n // 2)]
         return cases
 
     # ---------------------------------------------------------------- implementation
@@ -249,7 +296,7 @@ class C13(Prop):
         self.ctx.scheduler = sch
         targets, bc = self._binding(c)
         idx = {id(t): i for i, t in enumerate(targets)}
-        job = self._job("/step/0", c["inputs"])
+        job = self._job("/step/0", c.get("inputs", []))
         if c["f"] == "filter":
             # exactly the three lines of DefaultScheduler.schedule that apply the filters
             try:
@@ -259,6 +306,42 @@ class C13(Prop):
                 return {"r": [idx.get(id(t), -1) for t in ts]}
             except Exception as e:
                 return self._err(e)
+        if c["f"] == "fseq":
+            # the same three lines, on the filter objects the scheduler caches, for one job after the other
+            rs = []
+            for n, call in enumerate(c["calls"]):
+                jb = self._job(f"{call['step']}/{n}", call["inputs"])
+                try:
+                    ts = [targets[i] for i in call["sel"]]
+                    for f in (sch._get_binding_filter(f) for f in bc.filters):
+                        ts = await f.get_targets(jb, ts)
+                    rs.append({"r": [idx.get(id(t), -1) for t in ts]})
+                except Exception as e:
+                    rs.append(self._err(e))
+            return {"rs": rs}
+        if c["f"] == "sseq":
+            rs = []
+            try:
+                for n, (d, s) in enumerate(c["busy0"]):
+                    bj = self._job(f"/blocker{n}/0", [])
+                    await sch.schedule(bj, k["BindingConfig"](targets=[k["Target"](deployment=self.deps[d], service=s)]),
+                                       None)
+                for n, inp in enumerate(c["jobs"]):
+                    jb = self._job(f"/step/{n}", inp)
+                    task = a.create_task(sch.schedule(jb, bc, None))
+                    await self.loop.quiescent()
+                    if task.done() and not task.cancelled() and task.exception() is not None:
+                        rs.append(self._err(task.exception()))
+                    else:
+                        al = sch.job_allocations.get(jb.name)
+                        rs.append({"a": None if al is None else idx.get(id(al.target), -1)})
+            finally:
+                cur = a.current_task()
+                rest = [t for t in a.all_tasks() if t is not cur]
+                for t in rest:
+                    t.cancel()
+                await a.gather(*rest, return_exceptions=True)
+            return {"rs": rs}
         order = []
         orig = sch._process_target
 
@@ -327,6 +410,8 @@ class C13(Prop):
     def oracle(self, c, o):
         if "crash" in o or "hang" in o:
             return ("crash", f"implementation crashed/hung: {str(o)[:300]}")
+        if c["f"] in ("fseq", "sseq"):
+            return self._oracle_seq(c, o)
         lst = o if c["f"] == "filter" else o["order"]
         if str(lst.get("err", "")).startswith("other:"):
             return ("unexpected-exception", f"{lst['err']}: {lst.get('msg')}")
@@ -354,10 +439,61 @@ class C13(Prop):
                 prev = got
         return None
 
+    def _oracle_seq(self, c, o):
+        """every job of the sequence is judged on its own, from the rule texts and ITS inputs and targets"""
+        rs = o.get("rs", [])
+        n = len(c["calls"]) if c["f"] == "fseq" else len(c["jobs"])
+        if len(rs) != n:
+            return ("crash", f"{len(rs)} observations for {n} jobs")
+        busy = [list(b) for b in c.get("busy0", [])]
+        for k_, got in enumerate(rs):
+            if str(got.get("err", "")).startswith("other:"):
+                return ("unexpected-exception", f"job {k_}: {got['err']}: {got.get('msg')}")
+            if c["f"] == "fseq":
+                call = c["calls"][k_]
+                sel, inputs = call["sel"], call["inputs"]
+            else:
+                sel, inputs = list(range(len(c["targets"]))), c["jobs"][k_]
+            sub = {"filters": c["filters"], "inputs": inputs, "targets": [c["targets"][i] for i in sel]}
+            if not _judgeable(sub):
+                if "r" in got and [sel.index(x) for x in got["r"] if x in sel] != sorted(sel.index(x) for x in got["r"] if x in sel):
+                    return ("filter-order", f"job {k_}: returned targets {got['r']} are not in the binding's order {sel}")
+                if got.get("a") is not None:
+                    busy.append(c["targets"][got["a"]])
+                continue
+            sv = _survivors(sub)
+            exp = None if sv is None else [sel[i] for i in sv]
+            if c["f"] == "fseq":
+                v = self._judge_list(exp, got, f"job {k_} of the sequence (targets {sel})")
+                if v:
+                    # order clauses compare with the binding's own order
+                    if v[0] == "filter-set" and "r" in got and exp is not None and sorted(got["r"]) == sorted(exp):
+                        return ("filter-order", v[1])
+                    return (("seq-" + v[0]) if k_ > 0 else v[0], v[1])
+                continue
+            if exp is None:
+                if "err" not in got:
+                    return ("seq-filtered-out-placed", f"job {k_}: no target survives the filters, yet observed {got}")
+                continue
+            if "err" in got:
+                return ("seq-filter-raises" if k_ > 0 else "filter-raises",
+                        f"job {k_}: targets {exp} survive its filters, but schedule() raised {got['err']}")
+            cands = [i for i in exp if c["targets"][i] not in busy]
+            want = cands[0] if cands else None
+            if got["a"] != want:
+                return ("seq-first-admissible" if k_ > 0 else "first-admissible",
+                        f"job {k_}: surviving targets able to host are {cands} (declared order, busy {busy}), "
+                        f"the job was placed on {got['a']}")
+            if got["a"] is not None:
+                busy.append(c["targets"][got["a"]])
+        return None
+
     # ---------------------------------------------------------------- model side
     def coq_case(self, c, o):
         if "crash" in o or "hang" in o:
             return None
+        if c["f"] in ("fseq", "sseq"):
+            return self._coq_seq(c, o)
         os_ = lambda s: coq_opt(s, coq_str)
         ts = coq_list([f"T {coq_N(i)} {coq_str(d)} {os_(s)}" for i, (d, s) in enumerate(c["targets"])])
         fs = coq_list([coq_list([
@@ -384,7 +520,37 @@ class C13(Prop):
         al = coq_list([coq_opt(a, coq_N) for a in o["alloc"]])
         return f"CSched {ts} {fs} {job} {busy} {r} {al}"
 
+    def _coq_seq(self, c, o):
+        os_ = lambda s: coq_opt(s, coq_str)
+        ts = coq_list([f"T {coq_N(i)} {coq_str(d)} {os_(s)}" for i, (d, s) in enumerate(c["targets"])])
+        fs = coq_list([coq_list([
+            f"R {coq_str(r['d'])} {os_(r['s'])} " + coq_list([f"({coq_str(p)}, {coq_str(m)})" for p, m in r["job"]])
+            for r in f]) for f in c["filters"]])
+        jobt = lambda inputs: coq_list([f"({coq_str(p)}, ({KINDS[k]}, {coq_str(str(v))}))" for p, k, v in inputs])
+        obs = []
+        for got in o["rs"]:
+            if "err" in got:
+                if got["err"] not in ERRS:
+                    return None
+                obs.append(f"(Err {ERRS[got['err']]})")
+            elif c["f"] == "fseq":
+                if any(i < 0 for i in got["r"]):
+                    return None
+                obs.append("(Ok " + coq_list([coq_N(i) for i in got["r"]]) + ")")
+            else:
+                if got["a"] is not None and got["a"] < 0:
+                    return None
+                obs.append(f"(Ok {coq_opt(got['a'], coq_N)})")
+        if c["f"] == "fseq":
+            calls = coq_list([f"({coq_str(cl['step'])}, {jobt(cl['inputs'])}, {coq_list([coq_N(i) for i in cl['sel']])})"
+                              for cl in c["calls"]])
+            return f"CFilterSeq {ts} {fs} {calls} {coq_list(obs)}"
+        busy = coq_list([f"({coq_str(d)}, {os_(s)})" for d, s in c["busy0"]])
+        return f"CSchedSeq {ts} {fs} {busy} {coq_list([jobt(j) for j in c['jobs']])} {coq_list(obs)}"
+
     def nontrivial(self, c):
+        if c["f"] in ("fseq", "sseq"):
+            return len(c["filters"]) >= 1 and len(c["targets"]) >= 2
         if not _judgeable(c) or not c["filters"]:
             return False
         s = _survivors(c)
@@ -394,6 +560,21 @@ class C13(Prop):
         return f"{c['f']}/{clause}"
 
     def shrink(self, c):
+        if c["f"] in ("fseq", "sseq"):
+            key = "calls" if c["f"] == "fseq" else "jobs"
+            for i in range(len(c[key])):
+                if len(c[key]) > 1:
+                    yield {**c, key: c[key][:i] + c[key][i + 1:]}
+            for i in range(len(c["filters"])):
+                if len(c["filters"]) > 1:
+                    yield {**c, "filters": c["filters"][:i] + c["filters"][i + 1:]}
+                f = c["filters"][i]
+                for j in range(len(f)):
+                    if len(f) > 1:
+                        yield {**c, "filters": c["filters"][:i] + [f[:j] + f[j + 1:]] + c["filters"][i + 1:]}
+            if c["f"] == "sseq" and c["busy0"]:
+                yield {**c, "busy0": []}
+            return
         n = len(c["targets"])
         for i in range(n):
             if n > 1:
